@@ -21,7 +21,7 @@ from props import pipe_common
 STEP = 1400   # lcm(1400, 100): default primary / secondary resolution
 
 
-def lattice_input(rng: random.Random, inverted_repeat: bool = False):
+def lattice_input(rng: random.Random, inverted_repeat: bool = False, decoy: bool = False):
     refs = []
     blocks = {}
     for rid in (3, 8):
@@ -103,13 +103,49 @@ def lattice_input(rng: random.Random, inverted_repeat: bool = False):
         qrys.append({"id": qid + 1, "len": total * 10, "x": [v * 10 for v in mir], "kind": f"lattice{style}m",
                      "ref": ref["id"], "mirrored": True})
         qid += 2
+    if decoy:
+        # a contig with two loci that resemble one molecule: T carries all its labels exactly, but with two additional
+        # labels in most gaps (weak normalised seed peak, many pairs); E carries the first labels exactly and the others
+        # one lattice step to the left / right (strong seed peak, few pairs). Whether T's peak survives the "75% of the
+        # maximum" criterion must not depend on the strand the molecule is given on
+        n = rng.randint(18, 24)
+        gaps = [rng.randint(12, 18) for _ in range(n - 1)]
+        pat = [0]
+        for g in gaps:
+            pat.append(pat[-1] + g)
+        t0, e0 = 600, 600 + pat[-1] + rng.randint(300, 900)
+        if rng.random() < 0.5:
+            t0, e0 = e0, t0
+        top = max(t0, e0) + pat[-1] + rng.randint(300, 900)
+        cells = {t0 + b for b in pat}
+        for b, g in zip(pat, gaps):
+            if rng.random() < 0.8:
+                first = rng.randint(3, g - 6)
+                cells.add(t0 + b + first)
+                cells.add(t0 + b + rng.randint(first + 3, g - 3))
+        exact = rng.randint(6, 9)
+        for i, b in enumerate(pat):
+            cells.add(e0 + b if i < exact else e0 + b + (1 if i % 2 else -1))
+        b = 5
+        while b < top:
+            if not (t0 - 40 <= b <= t0 + pat[-1] + 40 or e0 - 40 <= b <= e0 + pat[-1] + 40):
+                cells.add(b)
+            b += rng.randint(15, 40)
+        xs = [c * STEP for c in sorted(cells)]
+        refs.append({"id": 5, "len": (xs[-1] + STEP * 3) * 10, "x": [v * 10 for v in xs], "bp": xs})
+        off = rng.randint(0, 4)
+        fwd = [(b + off) * STEP for b in pat]
+        total = fwd[-1] + off * STEP
+        mir = sorted(total - v for v in fwd)
+        qrys.append({"id": 40, "len": total * 10 + 10, "x": [v * 10 for v in fwd], "kind": "decoy", "ref": 5, "mirrored": False})
+        qrys.append({"id": 41, "len": total * 10 + 10, "x": [v * 10 for v in mir], "kind": "decoym", "ref": 5, "mirrored": True})
     return {"refs": refs, "qrys": qrys}
 
 
 def one_input(args):
     seed, idx, workroot = args
     rng = random.Random(seed * 48611 + idx)
-    inp = lattice_input(rng, inverted_repeat=(idx % 4 in (1, 3)))
+    inp = lattice_input(rng, inverted_repeat=(idx % 4 in (1, 3)), decoy=(idx % 4 in (0, 2)))
     wd = os.path.join(workroot, f"c11-{os.getpid()}-{idx}")
     extra = [{"-d": 600}, {"-d": 600, "-p": 5}, {"-d": 300, "-ms": 2000, "-bs": 1500}, {"-d": 600, "-sj": 0.5, "-ss": 1}][idx % 4]
     try:
